@@ -447,3 +447,40 @@ func TestC05Sched(t *testing.T) {
 		return vs
 	})
 }
+
+// TestC05TwoReadings: the shrunk failures of the two-readings defects as plain, deterministic cases (no library in between):
+// a validly signed POST-binding message of a provider that must sign, (a) as a byte string that is that message when read as
+// XML and a forged one when inflated, announced as DEFLATE-encoded, (b) behind an XML declaration naming another encoding.
+// Whatever is accepted must be, field for field, what the provider signed.
+func TestC05TwoReadings(t *testing.T) {
+	col := ev.For("C05", "exploration", c05Rule)
+	runPlain(t, col, "TestC05", func(fail func(*ev.Violation, any)) {
+		n := 0
+		for _, mut := range []Defect{{Name: "deflate-polyglot"}, {Name: "relabel-charset", Param: "ISO-8859-1"}, {Name: "relabel-charset", Param: "windows-1252"}, {Name: "relabel-charset", Param: "UTF-16"}} {
+			for _, alg := range []string{world.AlgRSASHA1, world.AlgRSASHA256} {
+				for _, keyInfo := range []bool{true, false} {
+					for _, flags := range [][2]string{{"true", A}, {"", "true"}, {"1", "1"}} {
+						for _, style := range []spsim.XMLStyle{plainStyle, {Prefixes: "default", W: xt.Style{}}, {Prefixes: "odd", Indent: true, W: xt.Style{SingleQuote: true}}} {
+							spec := stdSpec()
+							spec.IdP.WantAuthRequestsSigned = flags[0]
+							spec.SPs[0].AuthnRequestsSigned = flags[1]
+							orig := spsim.NewAuthnReq(fmt.Sprintf("_two-readings-%d", n), spec.SPs[0].EntityID)
+							orig.IssueInstant = spsim.Rel(-5, 0, "")
+							orig.ProviderName = "Café Zürich – ünï"
+							c := C05Case{Spec: spec, Host: defHost, SP: 0, Orig: orig, Style: style, Binding: "post", Alg: alg, KeyName: spec.SPs[0].KeyNames[0], KeyInfo: keyInfo, Relay: "rs", Mut: []Defect{mut}}
+							o := c05Run(c)
+							n++
+							col.Case(true, ev.Fingerprint("two-readings", mut, alg, keyInfo, flags, style.Prefixes), []string{"two-readings", "two-readings/" + mut.Name, fmt.Sprintf("two-readings/accepted=%v", o.accepted)}, func() any {
+								return map[string]any{"mutation": mut, "alg": alg, "key_info": keyInfo, "idp_want_signed": flags[0], "sp_flag": flags[1], "accepted": o.accepted}
+							})
+							for _, v := range o.vs {
+								fail(v, c)
+							}
+						}
+					}
+				}
+			}
+		}
+		col.SetExtra("two_readings_cases", n)
+	})
+}
